@@ -95,7 +95,12 @@ func init() {
 	}
 }
 
-func tokName(lx subj.Lexer, t subj.Tok) string { return lx.Id(t.Type) }
+func tokName(lx subj.Lexer, t subj.Tok) string {
+	if t.Type == -99 {
+		return "PANIC"
+	}
+	return lx.Id(t.Type)
+}
 
 // evalC01: token by token equality of (name, literal) with the reference scan.
 func evalC01(r *runner, u *lexUnit, c LexCase) string {
@@ -174,6 +179,9 @@ func evalC08(r *runner, u *lexUnit, c LexCase) string {
 	afterSkip := false
 	sawAfter := false
 	for i, g := range got {
+		if g.Type == -99 {
+			return fmt.Sprintf("grammar:\n%s\ninput %q: Scan call %d: %s", u.src, c.Src, i+1, g.Lit)
+		}
 		if g.Off < 0 || g.Off > len(c.Src) || g.Off+len(g.Lit) > len(c.Src) {
 			return fmt.Sprintf("grammar:\n%s\ninput %q: token %d has offset %d and %d literal bytes, outside the input", u.src, c.Src, i+1, g.Off, len(g.Lit))
 		}
